@@ -22,32 +22,31 @@ FUNCTIONS = [_C + f for f in ('precession_equatorial', 'precession_ecliptical', 
 
 MANIFEST = dict(
     text=("Lean 4 theorems (Props/C06.lean, over the reals, Mathlib) about the model of precession_equatorial, "
-          "precession_newcomb and precession_ecliptical, for every pair of epochs and every direction: the result never "
-          "raises and its direction vector is Rz(z) Ry(theta) Rz(zeta) applied to the starting direction (start declination "
-          "<= 85 degrees, the asin branch; for > 85 degrees, the acos branch, the same holds whenever the rotated "
-          "vector has a non-negative z component - proved to be the case for 85 < dec <= 90 and both epochs within +-5 "
-          "centuries of J2000 - and the declination returned is its absolute value otherwise); the "
-          "matrix is orthogonal, so the angle between two stars is unchanged; a zero interval is the identity; the "
+          "precession_newcomb and precession_ecliptical, for every pair of epochs and EVERY direction (both poles "
+          "included; the source returns atan2(c, sqrt(a*a + b*b)) with no branch on the declination): the result never "
+          "raises and its direction vector is Rz(z) Ry(theta) Rz(zeta) applied to the starting direction; the matrix "
+          "is orthogonal, so the angle between two stars is unchanged; a zero interval is the identity; the "
           "polynomials of the source satisfy zeta(T+t,-t) = -z(T,t), z(T+t,-t) = -zeta(T,t), theta(T+t,-t) = -theta(T,t) "
           "identically, so precessing there and back is exactly the identity on directions; proper motion enters as a "
           "displacement of the starting coordinates by 100 t mu; Angle(0,0,seconds) acts as seconds/3600 degrees, so the "
           "Euler angles are the source's polynomials / 3600; precession_newcomb and precession_ecliptical have the "
           "same rotation structure with their own angles and are the identity for a zero interval; "
           "p_motion_equa2eclip keeps the total proper motion; motion_in_space returns the direction of r u + t V "
-          "(straight-line motion, linear in time); mean_obliquity(J2000) = 23d26'21.448\". NOT carried by a theorem (numerical agreements between "
-          "different truncated series; measured on the implementation only): ecliptical there-and-back to 1e-6 degree, "
-          "equatorial route vs ecliptical route through the mean obliquity of each epoch to 1e-4 degree, Newcomb vs FK5 "
-          "to 0.005 degree for 1800-2100, orbital elements there and back (measured as the angle between the two orbit "
-          "orientations, tolerance 1e-6 degree, the property names none). The model is tied to /repo by running its binary64 "
-          "instantiation against the real functions bit for bit. Inputs: uniform directions, caps of 5 degrees and "
-          "down to 1e-9 degree around both poles, stars that precess onto a pole, epoch pairs and triples within +-5 "
-          "centuries of J2000 (+-20 for the exact clauses), proper motions up to 10 arcsec/yr."),
+          "(straight-line motion, linear in time); mean_obliquity(J2000) = 23d26'21.448\"; orbital_equinox2equinox never "
+          "raises and returns an inclination in [0,180] obeying the spherical cosine rule. NOT carried "
+          "by a theorem (numerical agreements between different truncated series; measured on the implementation "
+          "only): ecliptical there-and-back to 1e-6 degree, equatorial route vs ecliptical route through the mean "
+          "obliquity of each epoch to 1e-4 degree, Newcomb vs FK5 to 0.005 degree for 1800-2100, orbital elements there "
+          "and back (measured as the angle between the two orbit orientations, tolerance 1e-6 degree, the property "
+          "names none). The model is tied to /repo by running its binary64 instantiation against the real functions "
+          "bit for bit. Inputs: uniform directions, caps of 5 degrees and down to 1e-9 degree around both poles, stars "
+          "that precess onto a pole, epoch pairs and triples within +-5 centuries of J2000 (+-20 for the exact "
+          "clauses), proper motions up to 10 arcsec/yr, inclinations 0..180."),
     note=("Trusted: Lean kernel, Mathlib, axioms propext/Classical.choice/Quot.sound; the hand-written model "
           "(lean/templates/Precession.lean) and its bit-exact correspondence run; the idealisation binary64 -> real is "
-          "measured, not proved. Known findings (findings.d/C06.json): the near-pole branch is selected by the START "
-          "declination > +85 only, so a RESULT within 1e-3 degree of either pole computed by asin is off by up to 8.5e-7 "
-          "degree or raises ValueError; orbital_equinox2equinox loses inclinations > 90 degrees (asin), raises at "
-          "exactly 90, and replaces every inclination below 1 degree by the i0 = 0 special case."),
+          "measured, not proved. The findings of the first version of this check (asin declination near the poles, "
+          "orbital inclinations below 1 and above 90 degrees) are fixed in /repo by findings.d/proposed-5.patch and "
+          "proposed-6.patch; one corner stays listed (findings.d/C06.json): i0 = 0 together with a zero interval."),
     technique="Lean 4 proof over the reals (rotation matrices, Complex.arg, ring identities of the precession polynomials) + bit-exact model/implementation correspondence + predicate check",
     ref='6 C06')
 
@@ -317,7 +316,8 @@ def check_orbit(ctx, jd0, jd1, i0, arg0, lon0, klass):
     """Reducing orbital elements to another equinox and back returns them: measured as the angle of the rotation between
     the two orbit orientations Rz(node) Rx(i) Rz(arg) (no coordinate singularity at small inclinations), 1e-6 degree;
     and the new elements describe the old orbit precessed like any other pair of ecliptical directions."""
-    inp = {'check': 'orbit', 'args': [jd0, jd1, i0, arg0, lon0], 'inc_min': i0, 'inc_max': i0}
+    inp = {'check': 'orbit', 'args': [jd0, jd1, i0, arg0, lon0], 'inc_min': i0, 'inc_max': i0,
+           'interval': abs(jd1 - jd0)}
     # perihelion direction and orbit pole of the old elements, precessed with precession_ecliptical
     m0 = S.euler_matrix(lon0, i0, arg0)
     peri0 = S.lonlat((m0[0][0], m0[1][0], m0[2][0]))
